@@ -245,7 +245,7 @@ def strip_ps(d):
     return d
 
 
-def body_spellings(s, argspec, which='both'):
+def body_spellings(s, argspec, which='both', quick=False):
     """every legacy and new spelling of the same macro / environment signature parses identically."""
     lst = list(argspec)
     with warnings.catch_warnings():
@@ -260,7 +260,10 @@ def body_spellings(s, argspec, which='both'):
             'std_macro_tuple': lambda db: db.add_context_category('c', macros=[MS.std_macro(('n', argspec))]),
         }
         ref = spec_dump(s, spell['spec_list'])
-        for k, f in (spell.items() if which in ('both', 'macro') else []):
+        items = list(spell.items())
+        if quick:
+            items = [kv for kv in items if kv[0] in ('args_parser_str', 'args_parser_obj', 'std_macro')]
+        for k, f in (items if which in ('both', 'macro') else []):
             got = spec_dump(s, f)
             require(got == ref, 'macro signature given as %s parses differently from arguments_spec_list' % k)
         es = BS + 'begin{n}' + s[2:] + BS + 'end{n}'
@@ -318,19 +321,22 @@ def conditions(tier):
     conds.append(Cond('optarg_skel', PP, skel_pre('?[?]?') + base, 'body_optarg(s, pos)', timeout=T, twin=False, cost=2,
                       smoke=[dict(s='x[y]z', pos=p) for p in (0, 1)]))
     for v in ('plain', 'brackets', 'noenv', 'angle'):
-        conds.append(Cond('token_%s_le%d' % (v, n + 1), PP, ['len(s) <= %d' % (n + 1)] + base, 'body_token(s, pos, %r)' % v,
+        conds.append(Cond('token_%s_le%d' % (v, n), PP, ['len(s) <= %d' % n] + base, 'body_token(s, pos, %r)' % v,
                           timeout=T, twin=False, smoke=[dict(s=x, pos=0) for x in ('a', '[', '<', BS + 'a ', ' %c', '', BS)]))
     conds.append(Cond('token_noenv_skel', PP, skel_pre('?' + BS + 'begin{?}') + base, "body_token(s, pos, 'noenv')", timeout=T,
                       twin=False, smoke=[dict(s=' ' + BS + 'begin{a}', pos=p) for p in (0, 1)]))
     # signature spellings: argument string symbolic through a selector over all strings over {*,[,{} up to length 3 (4)
     specs = [a for a in ARGSPECS if len(a) <= (3 if quick else 4)]
+    if quick:
+        specs = ['{', '[{', '*{', '{[', '{*', '*[{', '[[{']
     for i, a in enumerate(specs):
         sk = BS + 'n' + ('??' if quick else '???')
-        for which in ('macro', 'env'):
-            conds.append(Cond('spell_%s_%d' % (which, i), 's: str', skel_pre(sk) + ['all(any(c == k for k in "*[]{}a ") for c in s[2:])'],
-                          'body_spellings(s, %r, %r)' % (a, which), timeout=T, twin=False, cost=2,
+        alpha = '*[{a ' if quick else '*[]{}a '
+        for which in (('macro',) if (quick and i % 3) else ('macro', 'env')):
+            conds.append(Cond('spell_%s_%d' % (which, i), 's: str', skel_pre(sk) + ['all(any(c == k for k in %r) for c in s[2:])' % alpha],
+                          'body_spellings(s, %r, %r, %r)' % (a, which, quick), timeout=T, twin=False, cost=2,
                           smoke=[dict(s=BS + 'n' + t) for t in ('*[a', '{a}', '[a]', 'a a', '{}{', '* {', '**', '*{')],
-                          descr='argument string %r through every legacy and new spelling; document \\n + 2-3 characters over {*,[,],{,},a,space}' % a))
+                          descr='argument string %r through the legacy and new spellings; document \\n + 2-3 characters over %r' % (a, alpha)))
     for i, (a, sk) in enumerate([('{*{', BS + 'n{a}?*{b}?'), ('{*', BS + 'n{a}?*?'), ('[*{', BS + 'n[a]?*{b}'), ('*[{', BS + 'n?*?[a]{b}'),
                                  ('{[', BS + 'n{a}?[b]?'), ('[{', BS + 'n?[a]?{b}'), ('{{', BS + 'n?a?b')]):
         conds.append(Cond('spellskel_%d' % i, 's: str', skel_pre(sk), "body_spellings(s, %r, 'macro')" % a, timeout=T, twin=False, cost=2,
@@ -345,10 +351,10 @@ META = dict(
                'macrospec._specclasses (args_parser handling: _legacy_pyltxenc2_CallableSpec_init_from_args_parser), '
                'macrospec._spechelpers.std_macro/std_environment, MacroStandardArgsParser',
                'the pylatexenc-3 parsers they are compared with'],
-    bounds=dict(quick='every Unicode string of length <= 2 (tokens: 3) and every start position, for 7 get_latex_nodes variants, '
+    bounds=dict(quick='every Unicode string of length <= 2  and every start position, for 7 get_latex_nodes variants, '
                       'expression, 2 brace types, optional argument, 4 get_token variants; pinned skeletons with free holes for '
-                      'each; environments on skeletons; 13 argument strings over {*,[,{} up to length 3 through 6 macro and 4 '
-                      'environment spellings on all 2-character continuations over {*,[,],{,},a,space} and 7 longer skeletons',
+                      'each; environments on skeletons; 7 argument strings over {*,[,{} through 4 macro (and, for some, 4 environment) spellings on all 2-character '
+                      'continuations over {*,[,{,a,space} and 7 longer skeletons',
                 thorough='length <= 3; 5 brace types; argument strings up to length 4 on 3-character continuations'),
     stubs=['logging disabled', 'deprecation warnings silenced', 'step budget'],
     outside=['strict_braces=False', 'tolerant walkers', 'parsing_state arguments other than those listed'],
